@@ -732,38 +732,199 @@ Qed.
    Running the first j calls of `commit_calls h tv m` on a store where the final and the staging path are free
    and running j steps of writer t in Store.Model_Handlers (the model C02's theorems are about, tied to the real
    handlers by hx_c02) agree on what the final path and the staging path hold; after the last call the C02
-   writer is Done ROk, and (C02's I_ok) Done ROk means the final path holds the writer's manifest. *)
+   writer is Done ROk, and Done ROk means the final path holds the writer's manifest (C02's I_ok). *)
+Definition hstep (hs : Model_Handlers.state) (t : N) := Model_Handlers.step hs (Run t).
+
+Lemma hstep_eq hs t k p : kind (thr hs t) = k -> tpc (thr hs t) = p ->
+  hstep hs t =
+  let fin := KFinal (ver (thr hs t)) in
+  let tmp := KTmp t in
+  match k, p with
+  | _, Done _ => hs
+  | HCondPut, P0 => if is_none (sto hs fin) then mk hs (upd (sto hs) fin (By t)) (lck hs) t (Done ROk)
+                    else mk hs (sto hs) (lck hs) t (Done RConflict)
+  | HCondPut, _ => hs
+  | HUnsafe, P0 => mk hs (upd (sto hs) fin (By t)) (lck hs) t (Done ROk)
+  | HUnsafe, _ => hs
+  | HRename, P0 => mk hs (upd (sto hs) tmp (By t)) (lck hs) t P1
+  | HRename, P1 =>
+      match sto hs tmp with
+      | None => mk hs (sto hs) (lck hs) t (Done ROther)
+      | Some c => if is_none (sto hs fin) then mk hs (Model_Handlers.del (upd (sto hs) fin c) tmp) (lck hs) t (Done ROk)
+                  else mk hs (sto hs) (lck hs) t P2
+      end
+  | HRename, P2 => mk hs (Model_Handlers.del (sto hs) tmp) (lck hs) t (Done RConflict)
+  | HRename, _ => hs
+  | HLock, P0 => if is_none (lck hs) then mk hs (sto hs) (Some t) t P1 else hs
+  | HLock, P1 => if is_none (sto hs fin) then mk hs (sto hs) (lck hs) t P2 else mk hs (sto hs) (lck hs) t PRelC
+  | HLock, P2 => mk hs (upd (sto hs) fin (By t)) (lck hs) t P3
+  | HLock, P3 => mk hs (sto hs) None t (Done ROk)
+  | HLock, PRelC => mk hs (sto hs) None t (Done RConflict)
+  | HLock, PRelO => mk hs (sto hs) None t (Done ROther)
+  end.
+Proof.
+  intros K P. unfold hstep, Model_Handlers.step. cbn [ev_tid ev_mode]. rewrite K, P.
+  destruct k, p; reflexivity.
+Qed.
+
+Lemma thr_mk_fields s st l t p :
+  kind (thr (mk s st l t p) t) = kind (thr s t) /\ tpc (thr (mk s st l t p) t) = p /\ ver (thr (mk s st l t p) t) = ver (thr s t).
+Proof. rewrite thr_mk_same. cbn. auto. Qed.
+
+Section Refine.
+  Variables (tv : N) (m : manifest) (t : N) (st0 : Model_Handlers.store) (s1 : Model_Commit.store).
+  Hypothesis H1 : st0 (KFinal tv) = None.
+  Hypothesis H2 : st0 (KTmp t) = None.
+  Hypothesis G3 : get s1 (manifest_path tv) = None.
+  Hypothesis G4 : get s1 (PTmp tv) = None.
+
+  Local Notation fin := (manifest_path tv).
+  Local Notation F := (KFinal tv).
+  Local Notation T := (KTmp t).
+
+  Lemma ne_tmp_fin : PTmp tv <> fin.
+  Proof. unfold manifest_path; destruct (is_detached tv); discriminate. Qed.
+  Lemma ne_fin_tmp : fin <> PTmp tv.
+  Proof. intro E; apply ne_tmp_fin; symmetry; exact E. Qed.
+  Lemma neK : T <> F. Proof. discriminate. Qed.
+  Lemma neK' : F <> T. Proof. discriminate. Qed.
+
+  (* the five claims, given what the two sides hold *)
+  Definition agree (hs : Model_Handlers.state) (s2 : Model_Commit.store) (last : bool) : Prop :=
+    (sto hs F = Some (By t) <-> get s2 fin = Some (CMan m))
+    /\ (sto hs F = None <-> get s2 fin = None)
+    /\ (sto hs T = None <-> get s2 (PTmp tv) = None)
+    /\ (last = true -> tpc (thr hs t) = Done ROk)
+    /\ (tpc (thr hs t) = Done ROk -> sto hs F = Some (By t)).
+
+  Lemma agree_start h : agree (init st0 (fun _ => tv) (fun _ => h)) s1 false.
+  Proof.
+    unfold agree. cbn [init sto thr tpc].   rewrite H1, H2, G3, G4.
+    repeat split; intros; try discriminate; reflexivity.
+  Qed.
+
+  Ltac close_agree :=
+    unfold agree; cbn [sto mk]; rewrite ?thr_mk_same; cbn [tpc];
+    repeat split; intros; try discriminate; try reflexivity; try congruence.
+
+  Lemma refine_condput j : (j <= 1)%nat ->
+    agree (Model_Handlers.run (repeat (Run t) j) (init st0 (fun _ => tv) (fun _ => HCondPut)))
+          (exec (firstn j (commit_calls HCondPut tv m)) s1) (Nat.eqb j 1).
+  Proof.
+    intro Hj. destruct j as [|[|j]]; [apply agree_start | | lia].
+    cbn [repeat Model_Handlers.run fold_left Nat.eqb]. fold (hstep (init st0 (fun _ => tv) (fun _ => HCondPut)) t).
+    rewrite (hstep_eq (init st0 (fun _ => tv) (fun _ => HCondPut)) t HCondPut P0 eq_refl eq_refl). cbn zeta. cbn [init thr ver sto lck]. rewrite H1. cbn [is_none].
+    unfold commit_calls. cbn [firstn exec Model_Commit.step].  unfold has. rewrite G3. cbn [exec].
+    pose proof (upd_same st0 F (By t)) as A. pose proof (upd_other st0 F (By t) T neK') as B. rewrite H2 in B.
+    pose proof (get_put_same s1 fin (CMan m)) as C. pose proof (get_put_other s1 fin (CMan m) (PTmp tv) ne_fin_tmp) as D. rewrite G4 in D.
+    unfold agree; cbn [sto mk]; rewrite thr_mk_same; cbn [tpc].  rewrite A, B, C, D.
+    repeat split; intros; try discriminate; reflexivity.
+  Qed.
+
+  Lemma refine_unsafe j : (j <= 1)%nat ->
+    agree (Model_Handlers.run (repeat (Run t) j) (init st0 (fun _ => tv) (fun _ => HUnsafe)))
+          (exec (firstn j (commit_calls HUnsafe tv m)) s1) (Nat.eqb j 1).
+  Proof.
+    intro Hj. destruct j as [|[|j]]; [apply agree_start | | lia].
+    cbn [repeat Model_Handlers.run fold_left Nat.eqb]. fold (hstep (init st0 (fun _ => tv) (fun _ => HUnsafe)) t).
+    rewrite (hstep_eq (init st0 (fun _ => tv) (fun _ => HUnsafe)) t HUnsafe P0 eq_refl eq_refl). cbn zeta. cbn [init thr ver sto lck].
+    unfold commit_calls. cbn [firstn exec Model_Commit.step]. 
+    pose proof (upd_same st0 F (By t)) as A. pose proof (upd_other st0 F (By t) T neK') as B. rewrite H2 in B.
+    pose proof (get_put_same s1 fin (CMan m)) as C. pose proof (get_put_other s1 fin (CMan m) (PTmp tv) ne_fin_tmp) as D. rewrite G4 in D.
+    unfold agree; cbn [sto mk]; rewrite thr_mk_same; cbn [tpc].  rewrite A, B, C, D.
+    repeat split; intros; try discriminate; reflexivity.
+  Qed.
+
+  Lemma refine_rename j : (j <= 2)%nat ->
+    agree (Model_Handlers.run (repeat (Run t) j) (init st0 (fun _ => tv) (fun _ => HRename)))
+          (exec (firstn j (commit_calls HRename tv m)) s1) (Nat.eqb j 2).
+  Proof.
+    intro Hj. destruct j as [|[|[|j]]]; [apply agree_start | | | lia].
+    - (* staging file written *)
+      cbn [repeat Model_Handlers.run fold_left Nat.eqb]. fold (hstep (init st0 (fun _ => tv) (fun _ => HRename)) t).
+      rewrite (hstep_eq (init st0 (fun _ => tv) (fun _ => HRename)) t HRename P0 eq_refl eq_refl). cbn zeta. cbn [init thr ver sto lck].
+      unfold commit_calls. cbn [firstn exec Model_Commit.step]. 
+      pose proof (upd_same st0 T (By t)) as A. pose proof (upd_other st0 T (By t) F neK) as B. rewrite H1 in B.
+      pose proof (get_put_same s1 (PTmp tv) (CMan m)) as C. pose proof (get_put_other s1 (PTmp tv) (CMan m) fin ne_tmp_fin) as D. rewrite G3 in D.
+      unfold agree; cbn [sto mk]; rewrite thr_mk_same; cbn [tpc].  rewrite A, B, C, D.
+      repeat split; intros; try discriminate; reflexivity.
+    - set (I0 := init st0 (fun _ => tv) (fun _ => HRename)).
+      change (Model_Handlers.run (repeat (Run t) 2) I0) with (hstep (hstep I0 t) t).
+      assert (E1 : hstep I0 t = mk I0 (upd st0 T (By t)) None t P1).
+      { rewrite (hstep_eq I0 t HRename P0 eq_refl eq_refl). reflexivity. }
+      rewrite E1. set (B1 := mk I0 (upd st0 T (By t)) None t P1).
+      destruct (thr_mk_fields I0 (upd st0 T (By t)) None t P1) as (K1 & Q1 & V1). fold B1 in K1, Q1, V1.
+      change (kind (thr I0 t)) with HRename in K1. change (ver (thr I0 t)) with tv in V1.
+      rewrite (hstep_eq B1 t HRename P1 K1 Q1). cbn zeta. rewrite V1.
+      change (sto B1) with (upd st0 T (By t)). change (lck B1) with (@None N).
+      rewrite (upd_same st0 T (By t)), (upd_other st0 T (By t) F neK), H1. cbn [is_none].
+      unfold commit_calls. cbn [firstn exec Model_Commit.step Nat.eqb].
+      rewrite get_put_same. unfold has. rewrite (get_put_other s1 (PTmp tv) (CMan m) fin ne_tmp_fin), G3. cbn [exec].
+      pose proof (del_other (upd (upd st0 T (By t)) F (By t)) T F neK) as A. rewrite upd_same in A.
+      pose proof (del_same (upd (upd st0 T (By t)) F (By t)) T) as B.
+      pose proof (get_put_same (Model_Commit.del (put s1 (PTmp tv) (CMan m)) (PTmp tv)) fin (CMan m)) as C.
+      pose proof (get_put_other (Model_Commit.del (put s1 (PTmp tv) (CMan m)) (PTmp tv)) fin (CMan m) (PTmp tv) ne_fin_tmp) as D.
+      rewrite get_del_same in D.
+      unfold agree; cbn [sto mk]; rewrite thr_mk_same; cbn [tpc]. rewrite A, B, C, D.
+      repeat split; intros; try discriminate; reflexivity.
+  Qed.
+
+  Lemma refine_lock j : (j <= 4)%nat ->
+    agree (Model_Handlers.run (repeat (Run t) j) (init st0 (fun _ => tv) (fun _ => HLock)))
+          (exec (firstn j (commit_calls HLock tv m)) s1) (Nat.eqb j 4).
+  Proof.
+    intro Hj. set (I0 := init st0 (fun _ => tv) (fun _ => HLock)).
+    (* the four states of the writer *)
+    assert (E1 : hstep I0 t = mk I0 st0 (Some t) t P1).
+    { rewrite (hstep_eq I0 t HLock P0 eq_refl eq_refl). reflexivity. }
+    set (C1 := mk I0 st0 (Some t) t P1) in *.
+    destruct (thr_mk_fields I0 st0 (Some t) t P1) as (K1 & Q1 & V1). fold C1 in K1, Q1, V1.
+    change (kind (thr I0 t)) with HLock in K1. change (ver (thr I0 t)) with tv in V1.
+    assert (E2 : hstep C1 t = mk C1 st0 (Some t) t P2).
+    { rewrite (hstep_eq C1 t HLock P1 K1 Q1). cbn zeta. rewrite V1. change (sto C1) with st0. rewrite H1. reflexivity. }
+    set (C2 := mk C1 st0 (Some t) t P2) in *.
+    destruct (thr_mk_fields C1 st0 (Some t) t P2) as (K2 & Q2 & V2). fold C2 in K2, Q2, V2. rewrite K1 in K2. rewrite V1 in V2.
+    assert (E3 : hstep C2 t = mk C2 (upd st0 F (By t)) (Some t) t P3).
+    { rewrite (hstep_eq C2 t HLock P2 K2 Q2). cbn zeta. rewrite V2. reflexivity. }
+    set (C3 := mk C2 (upd st0 F (By t)) (Some t) t P3) in *.
+    destruct (thr_mk_fields C2 (upd st0 F (By t)) (Some t) t P3) as (K3 & Q3 & V3). fold C3 in K3, Q3, V3. rewrite K2 in K3. rewrite V2 in V3.
+    assert (E4 : hstep C3 t = mk C3 (upd st0 F (By t)) None t (Done ROk)).
+    { rewrite (hstep_eq C3 t HLock P3 K3 Q3). reflexivity. }
+    pose proof (upd_same st0 F (By t)) as A. pose proof (upd_other st0 F (By t) T neK') as B. rewrite H2 in B.
+    pose proof (get_put_same s1 fin (CMan m)) as C. pose proof (get_put_other s1 fin (CMan m) (PTmp tv) ne_fin_tmp) as D. rewrite G4 in D.
+    assert (Hh : has s1 fin = false) by (apply has_false; exact G3).
+    unfold commit_calls.
+    destruct j as [|[|[|[|[|j]]]]]; [apply agree_start | | | | | lia].
+    - change (Model_Handlers.run (repeat (Run t) 1) I0) with (hstep I0 t). rewrite E1.
+      cbn [firstn exec Model_Commit.step Nat.eqb].
+      unfold agree. change (sto C1) with st0. rewrite Q1, H1, H2, G3, G4.
+      repeat split; intros; try discriminate; reflexivity.
+    - change (Model_Handlers.run (repeat (Run t) 2) I0) with (hstep (hstep I0 t) t). rewrite E1, E2.
+      cbn [firstn exec Model_Commit.step Nat.eqb]. rewrite Hh. cbn [exec].
+      unfold agree. change (sto C2) with st0. rewrite Q2, H1, H2, G3, G4.
+      repeat split; intros; try discriminate; reflexivity.
+    - change (Model_Handlers.run (repeat (Run t) 3) I0) with (hstep (hstep (hstep I0 t) t) t). rewrite E1, E2, E3.
+      cbn [firstn exec Model_Commit.step Nat.eqb]. rewrite Hh. cbn [exec Model_Commit.step].
+      unfold agree. change (sto C3) with (upd st0 F (By t)). rewrite Q3, A, B, C, D.
+      repeat split; intros; try discriminate; reflexivity.
+    - change (Model_Handlers.run (repeat (Run t) 4) I0) with (hstep (hstep (hstep (hstep I0 t) t) t) t). rewrite E1, E2, E3, E4.
+      cbn [firstn exec Model_Commit.step Nat.eqb]. rewrite Hh. cbn [exec Model_Commit.step].
+      unfold agree; cbn [sto mk]. rewrite thr_mk_same; cbn [tpc]. rewrite A, B, C, D.
+      repeat split; intros; try discriminate; reflexivity.
+  Qed.
+End Refine.
+
 Lemma commit_calls_refine_handlers h tv m t st0 s1 j :
   st0 (KFinal tv) = None -> st0 (KTmp t) = None ->
   has s1 (manifest_path tv) = false -> has s1 (PTmp tv) = false ->
   (j <= length (commit_calls h tv m))%nat ->
-  let hs := Model_Handlers.run (repeat (Run t) j) (init st0 (fun _ => tv) (fun _ => h)) in
-  let s2 := exec (firstn j (commit_calls h tv m)) s1 in
-  (sto hs (KFinal tv) = Some (By t) <-> get s2 (manifest_path tv) = Some (CMan m))
-  /\ (sto hs (KFinal tv) = None <-> get s2 (manifest_path tv) = None)
-  /\ (sto hs (KTmp t) = None <-> get s2 (PTmp tv) = None)
-  /\ (j = length (commit_calls h tv m) -> tpc (thr hs t) = Done ROk)
-  /\ (tpc (thr hs t) = Done ROk -> sto hs (KFinal tv) = Some (By t)).
+  agree tv m t (Model_Handlers.run (repeat (Run t) j) (init st0 (fun _ => tv) (fun _ => h)))
+        (exec (firstn j (commit_calls h tv m)) s1) (Nat.eqb j (length (commit_calls h tv m))).
 Proof.
-  intros H1 H2 H3 H4 Hj.
-  assert (Hne : PTmp tv <> manifest_path tv) by (unfold manifest_path; destruct (is_detached tv); discriminate).
-  assert (Hne' : manifest_path tv <> PTmp tv) by (intro E; apply Hne; symmetry; exact E).
-  pose proof (proj1 (has_false _ _) H3) as G3. pose proof (proj1 (has_false _ _) H4) as G4.
-  unfold commit_calls in *.
-  destruct h; cbn [length] in Hj;
-    repeat (destruct j as [|j]; [|try lia]);
-    cbn [repeat Model_Handlers.run fold_left firstn exec Model_Commit.step];
-    repeat (progress (unfold Model_Handlers.step, mk, set_thr, init, upd, Model_Handlers.del;
-                      cbn [ev_tid ev_mode thr sto lck kind ver tpc key_eqb is_none];
-                      rewrite ?N.eqb_refl, ?H1, ?H2;
-                      cbn [ev_tid ev_mode thr sto lck kind ver tpc key_eqb is_none]));
-    rewrite ?H3, ?get_put_same;
-    try (replace (has (put s1 (PTmp tv) (CMan m)) (manifest_path tv)) with false
-           by (symmetry; apply has_false; rewrite get_put_other by exact Hne; exact G3));
-    cbn [exec Model_Commit.step length];
-    rewrite ?get_put_same, ?G3, ?G4;
-    try rewrite (get_put_other _ (PTmp tv) _ (manifest_path tv) Hne);
-    try rewrite (get_put_other _ (manifest_path tv) _ (PTmp tv) Hne');
-    try rewrite get_del_same; rewrite ?G3, ?G4;
-    repeat split; intros; try discriminate; try reflexivity; try congruence.
+  intros H1 H2 H3 H4 Hj. apply has_false in H3. apply has_false in H4.
+  destruct h; cbn [commit_calls length] in Hj |- *.
+  - exact (refine_condput tv m t st0 s1 H1 H2 H3 H4 j Hj).
+  - exact (refine_rename tv m t st0 s1 H1 H2 H3 H4 j Hj).
+  - exact (refine_lock tv m t st0 s1 H1 H2 H3 H4 j Hj).
+  - exact (refine_unsafe tv m t st0 s1 H1 H2 H3 H4 j Hj).
 Qed.
